@@ -14,6 +14,7 @@
 -/
 import Chrono.Model.Round
 import Chrono.Model.ArithOps
+import Chrono.Model.ZonedOps
 
 namespace Chrono.M.Round
 open Chrono Chrono.M Chrono.Extracted.Round
@@ -71,5 +72,46 @@ def zoned_duration (op : Op) (z : Zoned) (duration : Delta) : Res (RRes Zoned) :
   match Zoned.overflowing_naive_local z with
   | .panic => .panic
   | .ok nl => duration_generic op nl z Zoned.add Zoned.sub duration
+
+/-! ### SubsecRound at the level of the values -/
+
+/-- the decision of `round_subsecs` (`round = true`) / `trunc_subsecs` on `self.nanosecond()`: the
+signed nanosecond count that is added to `self` (`0` = the `self // unchanged` branch) -/
+def subsec_move (round : Bool) (frac : Int) (digits : Nat) : Res Int :=
+  let span := span_for_digits digits
+  match remU32 frac span with
+  | .panic => .panic
+  | .ok delta_down =>
+    if delta_down > 0 then
+      if round then
+        match ckU32 (span - delta_down) with
+        | .panic => .panic
+        | .ok delta_up =>
+          if tieUpSubsec delta_up delta_down then .ok (shift 1 delta_up)
+          else .ok (shift (-1) delta_down)
+      else .ok (shift (-1) delta_down)
+    else .ok 0
+
+/-- `impl<T> SubsecRound for T where T: Timelike + Add<TimeDelta> + Sub<TimeDelta>` -/
+def subsec_generic {α : Type} (round : Bool) (nanosecond : Res Int) (original : α)
+    (add sub : α → Delta → Res α) (digits : Nat) : Res α :=
+  match nanosecond with
+  | .panic => .panic
+  | .ok frac =>
+    match subsec_move round frac digits with
+    | .panic => .panic
+    | .ok d => apply_move add sub original d
+
+/-- `NaiveTime`: `+`/`-` wrap around midnight -/
+def time_subsecs (round : Bool) (t : Time) (digits : Nat) : Res Time :=
+  subsec_generic round (.ok t.nanosecond) t Time.add Time.sub digits
+
+/-- `NaiveDateTime`: `+`/`-` panic when the result leaves the range -/
+def naive_subsecs (round : Bool) (dt : NaiveDT) (digits : Nat) : Res NaiveDT :=
+  subsec_generic round (.ok dt.time.nanosecond) dt NaiveDT.add NaiveDT.sub digits
+
+/-- `DateTime<FixedOffset>`: the nanosecond field is read from the wall clock, the UTC reading moves -/
+def zoned_subsecs (round : Bool) (z : Zoned) (digits : Nat) : Res Zoned :=
+  subsec_generic round (Zoned.nanosecond z) z Zoned.add Zoned.sub digits
 
 end Chrono.M.Round
